@@ -2156,6 +2156,14 @@ class Controller:
                 component.specification.reference, state['currentIteration']+1, dw_name
             ))
 
+            if self.stop_executing:
+                # VV: kill_all_components() has already run (controller killed, error, failure in a future stage): the
+                # components of a new iteration would neither be launched nor be finished by anybody, and run() would
+                # wait for them forever
+                self.log.info("Controller has stopped executing - will not resolve the condition of DoWhile %s "
+                              "(no new iteration)" % dw_name)
+                return
+
             if component.state == experiment.model.codes.FINISHED_STATE:
                 try:
                     condition_dr = experiment.model.graph.DataReference(state['currentCondition'], doc['stage'])
